@@ -532,12 +532,7 @@ func EVAL(ctx context.Context, ast MalType, env EnvType) (res MalType, e error) 
 					if err != nil {
 						return nil, err
 					}
-					ast, err = do(ctx, catchDo, 0, 0, new_env)
-					if err != nil {
-						return nil, err
-					}
-					env = new_env
-					continue
+					return do(ctx, catchDo, 0, 0, new_env)
 				}
 				return nil, e
 			}
